@@ -128,7 +128,7 @@ impl Check for C09Large {
     }
     fn strategy(&self, t: Tier) -> BoxedStrategy<Case09L> {
         let max_n: u32 = t.pick(6_000, 70_000);
-        (prop_oneof![3 => 1_030u32..3_000, 1 => 3_000u32..max_n, 1 => 100u32..1_030], any::<u64>(), prop_oneof![Just(3u32), Just(17), Just(50), Just(1_000), 1_024u32..5_000], prop::bool::weighted(0.3), prop_oneof![Just(0u8), 2u8..30], 0u8..3, prop::bool::weighted(0.4))
+        (prop_oneof![18 => 1_030u32..3_000, 6 => 3_000u32..max_n, 6 => 100u32..1_030, 1 => 65_530u32..70_000], any::<u64>(), prop_oneof![Just(3u32), Just(17), Just(50), Just(1_000), 1_024u32..5_000], prop::bool::weighted(0.3), prop_oneof![Just(0u8), 2u8..30], 0u8..3, prop::bool::weighted(0.4))
             .prop_map(|(n, seed, nkeys, merge, odd_every, style, runs)| Case09L { n, seed, nkeys, merge, odd_every, style, runs })
             .boxed()
     }
